@@ -16,8 +16,10 @@ Two halves:
 Sessions: in mode "objects" one worker holds one `PersistentCache` object per session (newProcess = the object
 is dropped); in mode "procs" every session is its own OS process forked from a "zygote" that has imported pydra
 but never hashed anything (newProcess = the process is killed, the next use forks a new one); in mode
-"interpreters" every session is a freshly started Python interpreter.  The in-memory dict is lost in each case,
-which is all the model says.
+"interpreters" every session is a freshly started Python interpreter; in mode "seeded" every session is a fresh
+interpreter with its OWN `PYTHONHASHSEED` (chosen so that the iteration order of the focus file-set's raw member
+set is the one the case asks for, where it asks).  The in-memory dict is lost in each case, which is all the
+model says; the key the code builds must not depend on the seed.
 """
 
 from __future__ import annotations
@@ -141,6 +143,12 @@ def serve(inp, out, ph, classes):
                     ans["qual"] = f"{type(ref_obj).__module__}.{type(ref_obj).__name__}"
                 except Exception as e:  # noqa: BLE001
                     ans["ref_err"] = core.exc_tag(e)
+            elif cmd == "order":
+                # iteration order of the raw member set in THIS interpreter, as positions into the sorted members
+                obj = classes[c["cls"]](list(reversed(c["paths"])))
+                srt = sorted(obj.fspaths)
+                ans["order"] = [srt.index(p) for p in obj.fspaths]
+                ans["hashseed"] = os.environ.get("PYTHONHASHSEED")
             elif cmd == "drop":
                 sessions.pop(c["sess"], None)
             elif cmd == "cleanup":
@@ -192,8 +200,58 @@ def zygote_main():
             return
 
 
-def _worker_env(default_cache: Path, home: Path) -> dict:
-    return core.impl_env({"PYDRA_HASH_CACHE": str(default_cache), "HOME": str(home), "XDG_CACHE_HOME": str(home / ".cache")})
+ORACLE_SRC = (
+    "import sys, json\n"
+    "from pathlib import Path\n"
+    "for line in sys.stdin:\n"
+    "    ps = [Path(p) for p in json.loads(line)]\n"
+    "    st = frozenset(reversed(ps))\n"
+    "    print(json.dumps([ps.index(p) for p in st]), flush=True)\n"
+)
+
+
+class SeedOracle:
+    """Cheap look-ahead: tiny interpreters (no pydra), one per PYTHONHASHSEED, that tell in which order a frozenset
+    of the given `Path`s iterates under that seed.  Only used to *find* seeds; the worker confirms (`order`)."""
+
+    MAX = 48
+
+    def __init__(self):
+        self.procs: dict = {}
+
+    def order(self, seed: int, paths: list) -> list:
+        if seed not in self.procs:
+            env = dict(os.environ)
+            env["PYTHONHASHSEED"] = str(seed)
+            self.procs[seed] = subprocess.Popen(
+                [core.PY, "-S", "-c", ORACLE_SRC], stdin=subprocess.PIPE, stdout=subprocess.PIPE, env=env, text=True, bufsize=1
+            )
+        p = self.procs[seed]
+        p.stdin.write(json.dumps(paths) + "\n")
+        p.stdin.flush()
+        line = p.stdout.readline()
+        if not line:
+            raise core.Infra("seed oracle died")
+        return json.loads(line)
+
+    def find(self, want: list, paths: list, avoid=()) -> int | None:
+        for seed in range(1, self.MAX + 1):
+            if seed not in avoid and self.order(seed, paths) == want:
+                return seed
+        return None
+
+    def close(self):
+        for p in self.procs.values():
+            p.kill()
+            p.wait()
+        self.procs = {}
+
+
+def _worker_env(default_cache: Path, home: Path, hashseed: int | None = None) -> dict:
+    extra = {"PYDRA_HASH_CACHE": str(default_cache), "HOME": str(home), "XDG_CACHE_HOME": str(home / ".cache")}
+    if hashseed is not None:
+        extra["PYTHONHASHSEED"] = str(hashseed)
+    return core.impl_env(extra)
 
 
 def _check_origin(hello: dict):
@@ -205,12 +263,12 @@ def _check_origin(hello: dict):
 class Worker:
     """A worker in a freshly started interpreter (stdin/stdout pipes)."""
 
-    def __init__(self, default_cache: Path, home: Path, flag: str = "--worker"):
+    def __init__(self, default_cache: Path, home: Path, flag: str = "--worker", hashseed: int | None = None):
         self.p = subprocess.Popen(
             [core.PY, "-m", "harness.engines.filehash", flag],
             stdin=subprocess.PIPE,
             stdout=subprocess.PIPE,
-            env=_worker_env(default_cache, home),
+            env=_worker_env(default_cache, home, hashseed),
             cwd=str(home),
             text=True,
             bufsize=1,
@@ -295,14 +353,16 @@ class Runner:
         self.n = 0
         self.shared: Worker | None = None
         self.zygote: Worker | None = None
+        self.oracle = SeedOracle()
         self.spawned = 0  # interpreters started
         self.forked = 0  # processes forked from the zygote
 
-    def _spawn(self, interpreter: bool = False) -> Worker:
-        """A new worker process: a fresh interpreter, or (default) a fork of the zygote."""
-        if interpreter:
+    def _spawn(self, interpreter: bool = False, hashseed: int | None = None) -> Worker:
+        """A new worker process: a fresh interpreter (optionally with its own hash seed), or (default) a fork of
+        the zygote."""
+        if interpreter or hashseed is not None:
             self.spawned += 1
-            return Worker(self.root / "default-cache", self.home)
+            return Worker(self.root / "default-cache", self.home, hashseed=hashseed)
         if self.zygote is None:
             self.spawned += 1
             self.zygote = Worker(self.root / "default-cache", self.home, "--zygote")
@@ -314,6 +374,7 @@ class Runner:
             if w is not None:
                 w.kill()
         self.shared = self.zygote = None
+        self.oracle.close()
 
     # -- one history --------------------------------------------------------------------------------
     def run_history(self, case: dict) -> dict:
@@ -327,6 +388,22 @@ class Runner:
             (files / d).mkdir()
         mode = case.get("mode", "objects")
         procs: dict = {}  # procs mode: session id (or "fresh") -> Worker
+        seeds: dict = {}  # seeded mode: session key -> PYTHONHASHSEED
+        orders = {"wanted": 0, "found": 0, "realised": 0}
+        if mode == "seeded":
+            focus_cls, focus_ps = case["focus"]
+            fpaths = [str(files / PATHS[p]) for p in focus_ps]
+            for k, want in sorted(case.get("iter_orders", {}).items()):
+                orders["wanted"] += 1
+                sd = self.oracle.find(want, fpaths, avoid=set(seeds.values()))
+                if sd is not None:
+                    orders["found"] += 1
+                    seeds[k] = sd
+            for k, sd in case.get("hashseeds", {}).items():
+                seeds.setdefault(k, sd)
+
+        def seed_of(k):
+            return seeds.get(str(k), 200 + sum(map(ord, str(k))))  # deterministic default per session name
 
         def worker_for(sess):
             if mode == "objects":
@@ -336,7 +413,10 @@ class Runner:
                 return self.shared
             k = "fresh" if sess is None else sess
             if k not in procs:
-                w = self._spawn(interpreter=(mode == "interpreters"))
+                if mode == "seeded":
+                    w = self._spawn(hashseed=seed_of(k))
+                else:
+                    w = self._spawn(interpreter=(mode == "interpreters"))
                 w.call(cmd="reset", cache=str(cache), refroot=str(refroot))
                 procs[k] = w
             return procs[k]
@@ -474,7 +554,7 @@ class Runner:
                     if mode == "objects":
                         worker_for(None).call(cmd="cleanup")
                     else:  # a separate process, as the Submitter of another run would do it
-                        w = self._spawn(interpreter=(mode == "interpreters"))
+                        w = self._spawn(interpreter=(mode in ("interpreters", "seeded")))
                         try:
                             w.call(cmd="reset", cache=str(cache), refroot=str(refroot))
                             w.call(cmd="cleanup")
@@ -485,6 +565,12 @@ class Runner:
                 out.append(res)
                 disk_sizes.append(len(listing()))
                 self._check_fs(files, fs)
+            if mode == "seeded" and all(p in fs for p in focus_ps):
+                for k, want in case.get("iter_orders", {}).items():
+                    kk = "fresh" if k == "fresh" else int(k)
+                    if kk in procs:
+                        got = procs[kk].call(cmd="order", cls=CLASSES[focus_cls], paths=fpaths)["order"]
+                        orders["realised"] += got == want
             # different contents of the same file-set must have different reference digests ("reflects content")
             seen: dict = {}
             for (k_, p_, c_), d_ in refdig.items():
@@ -502,6 +588,7 @@ class Runner:
             "spec_ok": spec_ok,
             "d7_rule": d7,
             "own": (own_agree, own_total),
+            "orders": orders,
             "notes": notes,
         }
 
